@@ -35,6 +35,13 @@ RULE = (
     "(class table, abstract states, result)."
 )
 EXHAUSTIVE = {"quick": False, "thorough": False}
+OPEN_STATEMENTS = [
+    "cyclic values are outside the equality/copy theorems (Python's == and the library's __deepcopy__ recurse on them); "
+    "repr totality on them is the absence of a failing branch in the model + the per-run check that no repr form raises",
+    "bound methods nested inside containers are outside deepcopy_eq (Python compares them by __self__ identity)",
+    "the model's input states are abstract states observed on the real instances; how a state is reached (constructor, "
+    "setattr, del) is not modelled here (C01-C09)",
+]
 ASSUMPTIONS = [
     "values are finite trees: equality theorems exclude cyclic values (DESIGN 10.5); repr includes self-references",
     "two bound-method attribute values are equal iff they wrap the same function (DESIGN 10.6); bound methods occur "
@@ -447,17 +454,33 @@ def lines(case):
     eqs = eq_states(case)
     import copy
 
+    def guarded(f):
+        try:
+            return f()
+        except RecursionError:
+            return "raised RecursionError"
+        except Exception as e:  # noqa: BLE001
+            return f"raised {type(e).__name__}"
+
     for i in eqs:
         for j in eqs:
             ml.append(f"eq {i} {j}")
-            rl.append("1" if insts[i] == insts[j] else "0")
+            rl.append(guarded(lambda: "1" if insts[i] == insts[j] else "0"))
     for i in eqs:
         ml.append(f"dc {i}")
-        rl.append("1" if copy.deepcopy(insts[i]) == insts[i] else "0")
+        rl.append(guarded(lambda: "1" if copy.deepcopy(insts[i]) == insts[i] else "0"))
+        ml.append(f"dca {i}")
+        rl.append(guarded(lambda: "1" if all(
+            ref_attr_eq(case, copy.deepcopy(insts[i]), insts[i], a["name"])
+            for a in attrs_of(case, type(insts[i]).__name__)) else "0"))
     for i in eqs:
         ml.append(f"rc {i}")
-        ok, same = reconstruct_real(case, ns, insts[i])
-        rl.append(f"{int(ok)} {int(same)}")
+
+        def rc():
+            ok, same = reconstruct_real(case, ns, insts[i])
+            return f"{int(ok)} {int(same)}"
+
+        rl.append(guarded(rc))
     for i, x in enumerate(insts):
         ml.append(f"repr {i}")
         rl.append(repr_skeleton(case, x))
@@ -484,9 +507,10 @@ def reconstruct_real(case, ns, x):
             kwargs[a["name"]] = v
     try:
         y = type(x)(**kwargs)
+        same = bool(y == x)
     except Exception as e:  # noqa: BLE001
         return reconstructible(case, ns, x), False
-    return reconstructible(case, ns, x), (y == x)
+    return reconstructible(case, ns, x), same
 
 
 def reconstructible(case, ns, x):
@@ -912,7 +936,7 @@ def valid_case(case):
 
 
 def gen_cases(tier, rng):
-    n = {"quick": 40, "thorough": 220}.get(tier)
+    n = {"quick": 60, "thorough": 400}.get(tier)
     count = 0
     while n is None or count < n:
         c = gen_case(rng, tier)
